@@ -23,6 +23,37 @@ def make_case(G, i):
     return K, f, '%s:%s' % (cls, bk)
 
 
+def noise_pivot_catalogue():
+    """fixed positions in which the in-plane line x edge systems have an entry that is mathematically 0 but float noise in the
+    implementation (non-dyadic ratios): a plane whose normal projects parallel to the polygon's normal on a coordinate plane, and
+    in-plane lines / segments / half-lines parallel (in projection) to an edge of non-dyadic slope; all six axis permutations,
+    both argument orders"""
+    import itertools
+    F = E.F
+    out = []
+    for perm in itertools.permutations(range(3)):
+        def P(*c):
+            return tuple(F(c[perm[t]]) for t in range(3))
+        for (b, c) in ((4, 3), (3, 4), (1, 3), (5, 3)):
+            rect = [P(0, 0, 0), P(4, 0, 0), P(4, c, -b), P(0, c, -b)]            # normal (0, b, c)
+            cen = P(2, F(c, 2), F(-b, 2))
+            for a in (4, 3, 1, -7):
+                for pt in (cen, P(1, 0, 0), P(3, c, -b)):
+                    pl = ('PL', pt, P(a, b, c))
+                    out.append((pl, ('G', rect), 'noise-pivot:plane'))
+                    out.append((('G', rect[::-1]), pl, 'noise-pivot:plane'))
+        for (u, v) in ((F(13, 4), F(15, 4)), (F(3), F(7)), (F(5, 4), F(3))):
+            tri = [P(0, 0, 0), P(u, v, 2), P(u, v, -1)]
+            d = P(u, v, 0)
+            for h in (F(1, 2), F(0), F(-1, 4)):
+                base = P(u / 4, v / 4, h)
+                far = P(u, v, h)
+                for fl in (('L', base, d), ('S', base, far), ('S', P(-u, -v, h), P(2 * u, 2 * v, h)), ('H', base, d), ('H', far, tuple(-x for x in d))):
+                    out.append((fl, ('G', tri), 'noise-pivot:inplane'))
+                    out.append((('G', tri[::-1]), fl, 'noise-pivot:inplane'))
+    return out
+
+
 def work(args):
     seed, n, idx = args
     from .. import impl
@@ -46,6 +77,9 @@ def run(ctx, scale=1):
     cases = []
     for part in core.pmap(work, core.chunks(ctx, total, per=100)):
         cases.extend(part)
+    from .. import impl
+    for A, B, cls in noise_pivot_catalogue():
+        cases.append((A, B, cls, interlib.observe(impl, A, B)))
     outs = core.model_lines(['inter %s %s' % (tok(A), tok(B)) for A, B, _, _ in cases])
     for (A, B, cls, obs), ml in zip(cases, outs):
         interlib.judge(ctx, 'C02', A, B, cls, obs, ml)
